@@ -154,7 +154,7 @@ Theorem C08_no_placement_of_a_cycle_yields_a_value :
                              raw_lookup segs v0 = Some v' /\ forces root ks v') ->
   forall v st, wf v -> forces root ks v ->
     exists F0 e, forall F, F0 <= F -> interp F root v st = Err e.
-Proof. intros root Hw ks Hc v st Hv Hf. exact (forcing_a_cycle_is_an_error root Hw ks Hc v st Hv Hf). Qed.
+Proof. intros root Hw ks Hc v st Hv Hf. exact (forcing_a_cycle_is_an_error_raw root Hw ks Hc v st Hv Hf). Qed.
 Eval cbv in "ASSUMPTIONS-OF C08_no_placement_of_a_cycle_yields_a_value"%string. Print Assumptions C08_no_placement_of_a_cycle_yields_a_value.
 
 (** non-vacuity: a cycle through an embedded reference, a list element with a member path, a
@@ -175,6 +175,51 @@ Proof.
   - cbn [forces]. right. left. eexists. split; [vm_compute; reflexivity|]. apply cyc_parts_lit. cbn. tauto.
   - cbn [forces]. eexists. split; [vm_compute; reflexivity|].
     exists 12, st0, "a"%string. split; [vm_compute; reflexivity | cbn; tauto].
+Qed.
+
+(** The same for cycles whose member paths pass through values that are not plain mappings.
+    [wwalk root ks segs v]: a walk along [segs] from [v] cannot end in a value without a
+    reference into the set being rendered -- through a plain mapping it continues at the member;
+    a reference string met on the way has to be rendered first, so it must force; a multiply-defined
+    value either has a layer that is a forcing reference string or, having no string layer, is
+    flattened and the walk continues in the merged mapping; the value at the end of the path must
+    force (where the walk fails anyway, nothing is required).  If every path of the set walks
+    like that, whatever forces one of them renders to one and the same error from some fuel on. *)
+Theorem C08_cycles_through_referenced_and_layered_members_yield_no_value :
+  forall root, wf (VMap root) ->
+  forall ks,
+    (forall p, In p ks ->
+       exists k0 segs v0, split_on ":" p = k0 :: segs /\ m_get (VStr k0) root = Some v0 /\ wwalk root ks segs v0) ->
+  forall v st, wf v -> forces root ks v ->
+    exists F0 e, forall F, F0 <= F -> interp F root v st = Err e.
+Proof. exact forcing_a_cycle_is_an_error. Qed.
+Eval cbv in "ASSUMPTIONS-OF C08_cycles_through_referenced_and_layered_members_yield_no_value"%string. Print Assumptions C08_cycles_through_referenced_and_layered_members_yield_no_value.
+
+(** non-vacuity: a member path through a referenced value (b:x with b: ${a}), through a layer that
+    is a reference (t:x), and through the merge of two mapping layers (u:x) *)
+Example C08_layered_cycle_hypotheses_hold :
+  let root := [ mk_entry (VStr "a") (VStr "${b:x}") false false;
+                mk_entry (VStr "b") (VStr "${a}") false false;
+                mk_entry (VStr "c") (VStr "${t:x}") false false;
+                mk_entry (VStr "t") (VList [VMap [mk_entry (VStr "x") (VNum (NInt 1)) false false]; VStr "${c}"]) false false;
+                mk_entry (VStr "d") (VStr "<${u:x}>") false false;
+                mk_entry (VStr "u") (VList [VMap [mk_entry (VStr "x") (VStr "${d}") false false];
+                                            VMap [mk_entry (VStr "x") (VNum (NInt 2)) false false]]) false false ] in
+  let ks := ["a"; "b:x"; "c"; "t:x"; "d"; "u:x"]%string in
+  forall p, In p ks ->
+    exists k0 segs v0, split_on ":" p = k0 :: segs /\ m_get (VStr k0) root = Some v0 /\ wwalk root ks segs v0.
+Proof.
+  cbn zeta. intros p [<-|[<-|[<-|[<-|[<-|[<-|[]]]]]]]; do 3 eexists; (split; [reflexivity|]); (split; [reflexivity|]); cbn [wwalk].
+  - cbn [forces]. eexists. split; [vm_compute; reflexivity|]. apply cyc_parts_lit. cbn. tauto.
+  - cbn [forces]. eexists. split; [vm_compute; reflexivity|]. apply cyc_parts_lit. cbn. tauto.
+  - cbn [forces]. eexists. split; [vm_compute; reflexivity|]. apply cyc_parts_lit. cbn. tauto.
+  - left. apply Exists_cons_tl, Exists_cons_hd. split; [reflexivity|].
+    cbn [forces]. eexists. split; [vm_compute; reflexivity|]. apply cyc_parts_lit. cbn. tauto.
+  - cbn [forces]. eexists. split; [vm_compute; reflexivity|]. apply Exists_cons_tl, Exists_cons_hd. apply cyc_parts_lit. cbn. tauto.
+  - right. split; [repeat constructor|].
+    match goal with |- context [flattened ?a ?b] => let r := eval vm_compute in (flattened a b) in change (flattened a b) with r end.
+    cbv beta iota. match goal with |- context [m_get ?a ?b] => let r := eval vm_compute in (m_get a b) in change (m_get a b) with r end.
+    cbv beta iota. cbn [wwalk forces]. left. eexists. split; [vm_compute; reflexivity|]. apply cyc_parts_lit. cbn. tauto.
 Qed.
 
 (** Boundary evaluations on the model (kernel computations, instances -- not the general claim):
